@@ -379,8 +379,10 @@ def build_table():
     def ch_build(v):
         _, b = v
         maj, mnr, rnd, sid, suites, comp, ext = untup(b, 7)
+        exts = None if ext is None else exts_build('CtxUniversal', ext.v)
         o = M.ClientHello().create((maj, mnr), ba(rnd), ba(sid), list(suites),
-                                   extensions=None if ext is None else exts_build('CtxUniversal', ext.v))
+                                   extensions=None if exts is None else list(exts))
+        o.extensions = exts          # create()'s legacy arguments (tack=False ...) edit the list; set it as given
         o.compression_methods = list(comp)
         return o
 
@@ -398,8 +400,12 @@ def build_table():
         rnd = tagged.t.to_bytes(32, 'big')
         sid, suite, comp, ext = untup(tagged.v, 4)
         ctx = 'CtxHRR' if tagged.t == HRR_INT else 'CtxServer'
+        exts = None if ext is None else exts_build(ctx, ext.v)
         o = M.ServerHello().create((maj, mnr), ba(rnd), ba(sid), suite,
-                                   extensions=None if ext is None else exts_build(ctx, ext.v))
+                                   extensions=None if exts is None else list(exts))
+        # create()'s legacy arguments certificate_type=None / next_protos_advertised=None remove the
+        # cert_type and NPN extensions from the list that was passed (in place): set the list as given
+        o.extensions = exts
         o.compression_method = comp
         return o
 
